@@ -1,0 +1,17 @@
+//go:build verif
+
+package storagesc
+
+import "github.com/0chain/common/core/util"
+
+// VerifCodecTypes returns constructors of the unexported stored types of this package
+// (verification harness only; property C08).
+func VerifCodecTypes() []func() util.MPTSerializable {
+	return []func() util.MPTSerializable{
+		func() util.MPTSerializable { return &stakePool{} },
+		func() util.MPTSerializable { return &challengePool{} },
+		func() util.MPTSerializable { return &readPool{} },
+		func() util.MPTSerializable { return &freeStorageAssigner{} },
+		func() util.MPTSerializable { return &fundedPools{} },
+	}
+}
